@@ -352,6 +352,10 @@ def observe(text, mm, sem, parser, flag_deps=False, with_lcd=True, timeout=-1):
     obs["cpMarked"] = [idx[x.line_number] for x in cp]
     obs["cpCells"] = [[idx[x.line_number], units(x.latency_cp)] for x in cp]
     obs["cp"] = sum(c[1] for c in obs["cpCells"])
+    # per-line critical-path shares (the LatencyCP column of both outputs) of lines that are NOT on the returned path
+    onpath = set(id(x) for x in cp)
+    obs["cpStray"] = [[idx[ins.line_number], units(ins.latency_cp)] for ins in kernel
+                      if id(ins) not in onpath and getattr(ins, "latency_cp", 0)]
     lcd = dgo.get_loopcarried_dependencies()
     obs["lcd"] = [[units(v["latency"]), [idx[int(d.line_number)] for d, _ in v["dependencies"]]] for v in lcd.values()]
     obs["lcdEdgeLats"] = [[[idx[int(d.line_number)], units(l)] for d, l in v["dependencies"]] for v in lcd.values()]
@@ -363,7 +367,7 @@ def observe(text, mm, sem, parser, flag_deps=False, with_lcd=True, timeout=-1):
 def make_case(cid, obs, checks, k=None, extra=None):
     c = {"id": cid, "checks": list(checks), "n": obs["n"], "lat": obs["lat"], "latwo": obs["latwo"], "lds": obs["lds"],
          "E": obs["E"], "LE": obs["LE"], "E2": obs["E2"], "cp": obs["cp"], "cpMarked": obs["cpMarked"],
-         "cpCells": obs["cpCells"], "lcd": obs["lcd"], "lcdMax": obs["lcdMax"]}
+         "cpCells": obs["cpCells"], "cpStray": obs.get("cpStray", []), "lcd": obs["lcd"], "lcdMax": obs["lcdMax"]}
     if k is not None:
         c["k"] = k
         # for generated kernels the latencies are known by construction
